@@ -11,7 +11,7 @@ mkdir -p $COV/prof; rm -f $COV/prof/*.profraw
 cd $ROOT/harness
 export CARGO_NET_OFFLINE=true CARGO_TARGET_DIR=$COV RUSTFLAGS="--cfg mahf_verif -Cinstrument-coverage" VERIF_ROOT=$COV/fakeroot
 mkdir -p $VERIF_ROOT/evidence; cp $ROOT/known_findings.json $VERIF_ROOT/
-cargo +nightly build --release --offline --bins 2>&1 | tail -1
+LLVM_PROFILE_FILE="$COV/prof/build-%p-%m.profraw" cargo +nightly build --release --offline --bins 2>&1 | tail -1; rm -f $COV/prof/build-*.profraw
 objs=""
 for i in $(seq -w 1 20); do
   b=$COV/release/c$i
